@@ -165,33 +165,57 @@ pub fn lane_view<'a, T>(v: ArrayViewMutD<'a, T>, lane: Option<(usize, usize)>) -
     }
 }
 
-pub fn usize_list(idx: &[u64], form: u8) -> (Array1<usize>, bool) {
-    // returns the backing array and whether to take a stepped view of it
-    match form {
-        2 => {
-            let mut v = Vec::with_capacity(idx.len() * 2);
-            for &i in idx {
-                v.push(i as usize);
-                v.push(usize::MAX / 3); // junk between the entries
+/// A list argument (indexes or q values) in one of five forms: 0 owned array,
+/// 1 plain view, 2 stepped view (junk between the entries), 3 reversed view,
+/// 4 reversed stepped view.
+pub struct ListArg<X> {
+    pub backing: Array1<X>,
+    pub form: u8,
+}
+
+impl<X: Clone> ListArg<X> {
+    pub fn new(items: &[X], form: u8, junk: X) -> ListArg<X> {
+        let form = form % 5;
+        let backing = match form {
+            2 => {
+                let mut v = Vec::with_capacity(items.len() * 2);
+                for x in items {
+                    v.push(x.clone());
+                    v.push(junk.clone());
+                }
+                v
             }
-            (Array1::from(v), true)
+            3 => items.iter().rev().cloned().collect(),
+            4 => {
+                // s![..;-2] on 2k elements visits positions 2k-1, 2k-3, .., 1
+                let mut v = Vec::with_capacity(items.len() * 2);
+                for x in items.iter().rev() {
+                    v.push(junk.clone());
+                    v.push(x.clone());
+                }
+                v
+            }
+            _ => items.to_vec(),
+        };
+        ListArg { backing: Array1::from(backing), form }
+    }
+    pub fn view(&self) -> ndarray::ArrayView1<'_, X> {
+        match self.form {
+            2 => self.backing.slice(ndarray::s![..;2]),
+            3 => self.backing.slice(ndarray::s![..;-1]),
+            4 => self.backing.slice(ndarray::s![..;-2]),
+            _ => self.backing.view(),
         }
-        _ => (Array1::from(idx.iter().map(|&i| i as usize).collect::<Vec<_>>()), false),
     }
 }
 
-pub fn q_list(qs: &[f64], form: u8) -> (Array1<N64>, bool) {
-    match form {
-        2 => {
-            let mut v = Vec::with_capacity(qs.len() * 2);
-            for &q in qs {
-                v.push(n64(q));
-                v.push(n64(7.5)); // junk (invalid q) between the entries
-            }
-            (Array1::from(v), true)
-        }
-        _ => (Array1::from(qs.iter().map(|&q| n64(q)).collect::<Vec<_>>()), false),
-    }
+pub fn usize_list(idx: &[u64], form: u8) -> ListArg<usize> {
+    ListArg::new(&idx.iter().map(|&i| i as usize).collect::<Vec<_>>(), form, usize::MAX / 3)
+}
+
+pub fn q_list(qs: &[f64], form: u8) -> ListArg<N64> {
+    // the junk between entries is an invalid q
+    ListArg::new(&qs.iter().map(|&q| n64(q)).collect::<Vec<_>>(), form, n64(7.5))
 }
 
 /// dense rank pattern of a list of raw values (missing values rank u32::MAX)
@@ -335,6 +359,82 @@ fn outcome_tag<R>(o: &Outcome<R>) -> u64 {
     }
 }
 
+/// Run `$body` (with `$v` bound to a mutable reference to the 1-D receiver) under
+/// a policy, on the receiver kind the operation asks for. Yields
+/// (outcome, session, lane contents afterwards, damage to an aliasing handle).
+macro_rules! on_lane {
+    ($w:expr, $lane:expr, $storage:expr, $pre:expr, $cells:expr, $pol:expr, $bud:expr, |$v:ident| $body:expr) => {{
+        let vals: Vec<T> = $pre.iter().map(|&r| T::from_raw(r)).collect();
+        match $storage {
+            1 => {
+                let mut arr = Array1::from(vals);
+                let (o, s) = with_policy($pol, $bud, || {
+                    let $v = &mut arr;
+                    $body
+                });
+                let post: Vec<i64> = arr.iter().map(|x| x.to_raw()).collect();
+                (o, s, post, None::<String>)
+            }
+            2 => {
+                let mut arr = ndarray::ArcArray1::from(vals);
+                let other = arr.clone();
+                let (o, s) = with_policy($pol, $bud, || {
+                    let $v = &mut arr;
+                    $body
+                });
+                let post: Vec<i64> = arr.iter().map(|x| x.to_raw()).collect();
+                let seen: Vec<i64> = other.iter().map(|x| x.to_raw()).collect();
+                let dmg = if &seen != $pre { Some(format!("a second ArcArray handle sharing the buffer changed from {:?} to {:?}", $pre, seen)) } else { None };
+                (o, s, post, dmg)
+            }
+            3 => {
+                let base = Array1::from(vals);
+                let mut arr = ndarray::CowArray::from(base.view());
+                let (o, s) = with_policy($pol, $bud, || {
+                    let $v = &mut arr;
+                    $body
+                });
+                let post: Vec<i64> = arr.iter().map(|x| x.to_raw()).collect();
+                let seen: Vec<i64> = base.iter().map(|x| x.to_raw()).collect();
+                let dmg = if &seen != $pre { Some(format!("the array a CowArray was borrowing changed from {:?} to {:?}", $pre, seen)) } else { None };
+                (o, s, post, dmg)
+            }
+            _ => {
+                let lane = $lane;
+                let (o, s) = with_policy($pol, $bud, || {
+                    let mut vv = lane_view($w.view_mut(), lane);
+                    let $v = &mut vv;
+                    $body
+                });
+                let snap = $w.snapshot();
+                let post: Vec<i64> = $cells.iter().map(|&c| snap[c]).collect();
+                (o, s, post, None::<String>)
+            }
+        }
+    }};
+}
+
+/// C03 for a 1-D operation: the lane holds the same multiset, nothing else changed
+fn check_lane_permutation<T: OrdElem>(cx: &mut Ctx, what: &str, class: &str, op: &Op, before: &[i64], after_world: &[i64], cells: &[usize], pre: &[i64], post: &[i64], dmg: &Option<String>) {
+    if op.storage == 0 {
+        if let Err(e) = check_permutation_only(before, after_world, &[cells.to_vec()]) {
+            cx.fail(class, format!("{}: {}", what, e));
+        }
+    } else {
+        let mut a = pre.to_vec();
+        let mut b = post.to_vec();
+        a.sort_unstable();
+        b.sort_unstable();
+        if a != b {
+            cx.fail(class, format!("{} (receiver kind {}): the array held multiset {:?} before the call and {:?} after", what, op.storage, a, b));
+        } else if let Some(d) = dmg {
+            cx.fail(class, format!("{} (receiver kind {}): {}", what, op.storage, d));
+        } else if before != after_world {
+            cx.fail(class, format!("{} on a copy changed the unrelated world buffer", what));
+        }
+    }
+}
+
 fn op_select<T: OrdElem>(cx: &mut Ctx, scn: &Scenario, w: &mut World<T>, op: &Op, prop: Prop) {
     let cells = match lane_cells(w, op.lane) {
         Some(c) => c,
@@ -345,17 +445,18 @@ fn op_select<T: OrdElem>(cx: &mut Ctx, scn: &Scenario, w: &mut World<T>, op: &Op
     let before = w.snapshot();
     let pre: Vec<i64> = cells.iter().map(|&c| before[c]).collect();
     let in_range = (i as u128) < n as u128;
-    if prop != Prop::C16 && !in_range {
-        return; // outside the statement's domain for every property but C16
+    if op.storage != 0 {
+        cx.stats.probe("receiver_owned_shared_or_cow");
     }
-    let lane = op.lane;
-    let (out, sess) = with_policy(&op.policy, budget(n), || {
-        let mut v = lane_view(w.view_mut(), lane);
-        v.get_from_sorted_mut(i as usize)
-    });
+    let (out, sess, post, dmg) = on_lane!(w, op.lane, op.storage, &pre, &cells, &op.policy, budget(n), |v| v.get_from_sorted_mut(i as usize));
     note_case(cx, scn.elem, "select", &pre, &[i], &op.policy, &sess);
     cx.dg.ev(outcome_tag(&out));
     let after = w.snapshot();
+    if prop != Prop::C16 && !in_range {
+        // a rejected request inside a history: executed, not judged (C16 judges it)
+        cx.stats.probe("rejected_request_inside_history");
+        return;
+    }
     match prop {
         Prop::C02 | Prop::C18 => match &out {
             Outcome::Done(val) => {
@@ -368,20 +469,13 @@ fn op_select<T: OrdElem>(cx: &mut Ctx, scn: &Scenario, w: &mut World<T>, op: &Op
                     );
                 }
                 if prop == Prop::C02 {
-                    for (j, &c) in cells.iter().enumerate() {
-                        let x = T::from_raw(after[c]);
+                    for (j, &r) in post.iter().enumerate() {
+                        let x = T::from_raw(r);
                         let ok = if j < i as usize { x <= *val } else { x >= *val };
                         if !ok {
                             cx.fail(
                                 "select-post-order",
-                                format!(
-                                    "after get_from_sorted_mut({}) = {:?}, position {} holds {:?} (lane now {:?})",
-                                    i,
-                                    val,
-                                    j,
-                                    x,
-                                    cells.iter().map(|&c| T::from_raw(after[c])).collect::<Vec<_>>()
-                                ),
+                                format!("after get_from_sorted_mut({}) = {:?}, position {} holds {:?} (lane now {:?})", i, val, j, x, pre_dbg::<T>(&post)),
                             );
                             break;
                         }
@@ -391,11 +485,7 @@ fn op_select<T: OrdElem>(cx: &mut Ctx, scn: &Scenario, w: &mut World<T>, op: &Op
             Outcome::Panicked(m) => cx.fail("select-panic", format!("get_from_sorted_mut({}) on a lane of length {} panicked: {}", i, n, m)),
             Outcome::NoProgress => cx.fail("no-progress", format!("get_from_sorted_mut({}) on a lane of length {} did not complete within {} draws", i, n, budget(n))),
         },
-        Prop::C03 => {
-            if let Err(e) = check_permutation_only(&before, &after, &[cells.clone()]) {
-                cx.fail("not-a-permutation:select", format!("get_from_sorted_mut({}): {}", i, e));
-            }
-        }
+        Prop::C03 => check_lane_permutation::<T>(cx, &format!("get_from_sorted_mut({})", i), "not-a-permutation:select", op, &before, &after, &cells, &pre, &post, &dmg),
         Prop::C16 => {
             if in_range {
                 match &out {
@@ -432,26 +522,29 @@ fn op_select_many<T: OrdElem>(cx: &mut Ctx, scn: &Scenario, w: &mut World<T>, op
     let before = w.snapshot();
     let pre: Vec<i64> = cells.iter().map(|&c| before[c]).collect();
     let in_range = op.idx.iter().all(|&i| (i as u128) < n as u128);
-    if prop != Prop::C16 && !in_range {
-        return;
-    }
     let lane = op.lane;
-    let (arr, stepped) = usize_list(&op.idx, op.form);
-    let form = op.form;
-    let (out, sess) = with_policy(&op.policy, budget(n) + 64 * op.idx.len(), || {
-        let mut v = lane_view(w.view_mut(), lane);
-        let m = if stepped {
-            v.get_many_from_sorted_mut(&arr.slice(ndarray::s![..;2]))
-        } else if form == 1 {
-            v.get_many_from_sorted_mut(&arr.view())
-        } else {
-            v.get_many_from_sorted_mut(&arr)
-        };
+    let arr = usize_list(&op.idx, op.form);
+    if arr.form >= 3 {
+        cx.stats.probe("request_list_reversed_view");
+    }
+    if op.storage != 0 {
+        cx.stats.probe("receiver_owned_shared_or_cow");
+    }
+    if op.idx.len() >= n && n >= 64 {
+        cx.stats.probe("request_list_at_least_as_long_as_a_long_lane");
+    }
+    let (out, sess, post, dmg) = on_lane!(w, lane, op.storage, &pre, &cells, &op.policy, budget(n) + 64 * op.idx.len(), |v| {
+        let m = if arr.form == 0 { v.get_many_from_sorted_mut(&arr.backing) } else { v.get_many_from_sorted_mut(&arr.view()) };
         m.into_iter().collect::<Vec<(usize, T)>>()
     });
+    let _ = &post;
     note_case(cx, scn.elem, "select_many", &pre, &op.idx, &op.policy, &sess);
     cx.dg.ev(outcome_tag(&out));
     let after = w.snapshot();
+    if prop != Prop::C16 && !in_range {
+        cx.stats.probe("rejected_request_inside_history");
+        return;
+    }
     let mut want: Vec<usize> = op.idx.iter().map(|&i| i as usize).collect();
     want.sort_unstable();
     want.dedup();
@@ -513,11 +606,7 @@ fn op_select_many<T: OrdElem>(cx: &mut Ctx, scn: &Scenario, w: &mut World<T>, op
             Outcome::Panicked(m) => cx.fail("select-many-panic", format!("get_many_from_sorted_mut({:?}) on a lane of length {} panicked: {}", op.idx, n, m)),
             Outcome::NoProgress => cx.fail("no-progress", format!("get_many_from_sorted_mut({:?}) on a lane of length {} did not complete", op.idx, n)),
         },
-        Prop::C03 => {
-            if let Err(e) = check_permutation_only(&before, &after, &[cells.clone()]) {
-                cx.fail("not-a-permutation:select_many", format!("get_many_from_sorted_mut({:?}): {}", op.idx, e));
-            }
-        }
+        Prop::C03 => check_lane_permutation::<T>(cx, &format!("get_many_from_sorted_mut({:?})", op.idx), "not-a-permutation:select_many", op, &before, &after, &cells, &pre, &post, &dmg),
         Prop::C16 => {
             if in_range {
                 match &out {
@@ -554,27 +643,23 @@ fn op_partition<T: OrdElem>(cx: &mut Ctx, scn: &Scenario, w: &mut World<T>, op: 
     let before = w.snapshot();
     let pre: Vec<i64> = cells.iter().map(|&c| before[c]).collect();
     let in_range = (p as u128) < n as u128;
-    if prop != Prop::C16 && !in_range {
-        return;
+    if op.storage != 0 {
+        cx.stats.probe("receiver_owned_shared_or_cow");
     }
-    let lane = op.lane;
-    let (out, sess) = with_policy(&op.policy, budget(n), || {
-        let mut v = lane_view(w.view_mut(), lane);
-        v.partition_mut(p as usize)
-    });
+    let (out, sess, post, dmg) = on_lane!(w, op.lane, op.storage, &pre, &cells, &op.policy, budget(n), |v| v.partition_mut(p as usize));
     cx.note_draws(op.policy.kind, &sess.draws);
-    let _ = (&pre, scn);
+    let _ = scn;
     cx.dg.ev(outcome_tag(&out));
     if let Outcome::Done(k) = &out {
         cx.dg.ev(*k as u64);
     }
     let after = w.snapshot();
+    if prop != Prop::C16 && !in_range {
+        cx.stats.probe("rejected_request_inside_history");
+        return;
+    }
     match prop {
-        Prop::C03 => {
-            if let Err(e) = check_permutation_only(&before, &after, &[cells.clone()]) {
-                cx.fail("not-a-permutation:partition", format!("partition_mut({}): {}", p, e));
-            }
-        }
+        Prop::C03 => check_lane_permutation::<T>(cx, &format!("partition_mut({})", p), "not-a-permutation:partition", op, &before, &after, &cells, &pre, &post, &dmg),
         Prop::C16 => {
             if in_range {
                 if n == 1 {
@@ -622,13 +707,11 @@ pub fn call_quantile<T: OrdElem>(
         }
         "quantiles1" => {
             let mut l = lane_view(v, lane);
-            let (qa, stepped) = q_list(qs, form);
-            let r = if stepped {
-                with_strat!(strat, i => l.quantiles_mut(&qa.slice(ndarray::s![..;2]), i))
-            } else if form == 1 {
-                with_strat!(strat, i => l.quantiles_mut(&qa.view(), i))
+            let qa = q_list(qs, form);
+            let r = if qa.form == 0 {
+                with_strat!(strat, i => l.quantiles_mut(&qa.backing, i))
             } else {
-                with_strat!(strat, i => l.quantiles_mut(&qa, i))
+                with_strat!(strat, i => l.quantiles_mut(&qa.view(), i))
             };
             r.map(|a| a.into_dyn()).map_err(|e| format!("{:?}", e))
         }
@@ -637,8 +720,8 @@ pub fn call_quantile<T: OrdElem>(
             with_dim!(v, static_dim, |vv| nd_single(vv, axis, q, strat))
         }
         "quantiles_axis" => {
-            let (qa, stepped) = q_list(qs, form);
-            with_dim!(v, static_dim, |vv| nd_bulk(vv, axis, &qa, stepped, form, strat))
+            let qa = q_list(qs, form);
+            with_dim!(v, static_dim, |vv| nd_bulk(vv, axis, &qa, strat))
         }
         _ => Err("unknown quantile op".into()),
     }
@@ -648,20 +731,11 @@ fn nd_single<T: OrdElem, D: Dimension + RemoveAxis>(mut v: ArrayViewMut<'_, T, D
     with_strat!(strat, i => v.quantile_axis_mut(Axis(axis), q, i)).map(|a| a.into_dyn()).map_err(|e| format!("{:?}", e))
 }
 
-fn nd_bulk<T: OrdElem, D: Dimension + RemoveAxis>(
-    mut v: ArrayViewMut<'_, T, D>,
-    axis: usize,
-    qa: &Array1<N64>,
-    stepped: bool,
-    form: u8,
-    strat: Strat,
-) -> Result<ArrayD<T>, String> {
-    let r = if stepped {
-        with_strat!(strat, i => v.quantiles_axis_mut(Axis(axis), &qa.slice(ndarray::s![..;2]), i))
-    } else if form == 1 {
-        with_strat!(strat, i => v.quantiles_axis_mut(Axis(axis), &qa.view(), i))
+fn nd_bulk<T: OrdElem, D: Dimension + RemoveAxis>(mut v: ArrayViewMut<'_, T, D>, axis: usize, qa: &ListArg<N64>, strat: Strat) -> Result<ArrayD<T>, String> {
+    let r = if qa.form == 0 {
+        with_strat!(strat, i => v.quantiles_axis_mut(Axis(axis), &qa.backing, i))
     } else {
-        with_strat!(strat, i => v.quantiles_axis_mut(Axis(axis), qa, i))
+        with_strat!(strat, i => v.quantiles_axis_mut(Axis(axis), &qa.view(), i))
     };
     r.map(|a| a.into_dyn()).map_err(|e| format!("{:?}", e))
 }
@@ -723,9 +797,13 @@ fn op_quantile<T: OrdElem>(cx: &mut Ctx, scn: &Scenario, w: &mut World<T>, op: &
     if op.qs.is_empty() && !op.name.starts_with("quantiles") {
         return;
     }
-    let n = lanes.first().map(|l| l.len()).unwrap_or(0);
+    // lane length: the axis length even when there is no lane at all (a zero-length other axis)
+    let n = if op.name.ends_with('1') { lanes.first().map(|l| l.len()).unwrap_or(0) } else { w.view_shape()[op.axis] };
     if n == 0 || op.qs.iter().any(|q| !(0.0..=1.0).contains(q)) {
         return; // outside the domain of the claimed properties (error paths are C17)
+    }
+    if lanes.is_empty() {
+        cx.stats.probe("quantile_of_array_without_lanes");
     }
     let ty = scn.elem;
     let before = w.snapshot();
@@ -777,19 +855,19 @@ fn op_quantile<T: OrdElem>(cx: &mut Ctx, scn: &Scenario, w: &mut World<T>, op: &
         }
         // element (lane l, request j)
         let bulk = op.name.starts_with("quantiles");
-        let get = |l: usize, j: usize| -> T {
-            if op.name.ends_with('1') {
-                if bulk {
-                    res[[j].as_slice()].clone()
-                } else {
-                    res.iter().next().unwrap().clone()
-                }
-            } else if bulk {
-                res.lanes(Axis(op.axis)).into_iter().nth(l).unwrap()[j].clone()
-            } else {
-                res.iter().nth(l).unwrap().clone()
-            }
+        // result entries per lane, in request order (collected once: lanes can be many)
+        let per_lane: Vec<Vec<T>> = if op.name.ends_with('1') {
+            vec![res.iter().cloned().collect()]
+        } else if bulk {
+            res.lanes(Axis(op.axis)).into_iter().map(|l| l.to_vec()).collect()
+        } else {
+            res.iter().map(|x| vec![x.clone()]).collect()
         };
+        if per_lane.len() != lanes_sorted.len() && !(lanes_sorted.is_empty() && res.is_empty()) {
+            cx.fail("quantile-shape", format!("{} returned {} lanes of results for {} lanes of data", op.name, per_lane.len(), lanes_sorted.len()));
+            return;
+        }
+        let get = |l: usize, j: usize| -> T { per_lane[l][j].clone() };
         'outer: for (l, sorted) in lanes_sorted.iter().enumerate() {
             for (j, &q) in op.qs.iter().enumerate() {
                 let got = get(l, j);
